@@ -282,3 +282,11 @@ def full_name(a, b):
 
 def padded(n):
     return str(n).zfill(3)
+
+
+def add3(a, b, c):
+    return a + b + c
+
+
+def star_tuple(t):
+    return add3(1, *t)
